@@ -30,7 +30,9 @@ CLASSES = [
 ANALYSED = {c for c, _ in CLASSES}
 DEFINED = {"_POSIX_VERSION"}                    # the configuration that is analysed: threads on, dynload on, POSIX
 UNDEFINED = {"CHAISCRIPT_NO_THREADS", "CHAISCRIPT_NO_DYNLOAD", "CHAISCRIPT_MSVC", "__CYGWIN__", "CHAISCRIPT_WINDOWS", "_MSC_VER",
-             "CHAISCRIPT_NO_THREADS_WARNING"}
+             "CHAISCRIPT_NO_THREADS_WARNING", "CHAISCRIPT_VERIF"}
+HOOK_GUARD = "CHAISCRIPT_VERIF"              # the table is that of the library as shipped (guard off); the guard-on variant, which the
+                                             # harness programs are compiled with, must not differ in locks or shared-field accesses
 
 LOCK_RE = re.compile(r"^(?:chaiscript::detail::threading::|std::)(unique_lock|shared_lock|lock_guard)\s*<\s*(?:chaiscript::detail::threading::|std::)"
                      r"(shared_mutex|recursive_mutex|mutex)\s*>\s*(\w+)\s*\(\s*(\w+)\s*\)\s*;$")
@@ -1037,8 +1039,53 @@ def qstr(s):
     return '"%s"' % s.replace('"', '""')
 
 
+def significant(ci, md):
+    out = []
+    for it in md["items"]:
+        if it[0] == "ICall" and it[1] == md["name"]:
+            continue                      # (hook builds: get_object re-enters itself before it takes any lock)
+        if it[0] in ("IAcq", "IRel", "IWr", "ICall") or (it[0] == "IRd" and kind_of(ci, it[1]) == "FShared"):
+            out.append(it)
+    return out
+
+
+def with_hooks(repo, on):
+    if on:
+        DEFINED.add(HOOK_GUARD)
+        UNDEFINED.discard(HOOK_GUARD)
+    else:
+        UNDEFINED.add(HOOK_GUARD)
+        DEFINED.discard(HOOK_GUARD)
+    try:
+        infos = [load_class(repo, c, rel) for c, rel in CLASSES]
+        return infos, [analyse_class(ci) for ci in infos]
+    finally:
+        UNDEFINED.add(HOOK_GUARD)
+        DEFINED.discard(HOOK_GUARD)
+
+
+def check_hooks(repo, infos, tables):
+    """the CHAISCRIPT_VERIF build must have the same locks and shared-field accesses in every member function"""
+    infos2, tables2 = with_hooks(repo, True)
+    for ci, t1, ci2, t2 in zip(infos, tables, infos2, tables2):
+        if [(f[0], f[1]) for f in ci.fields] != [(f[0], f[1]) for f in ci2.fields] or ci.mutexes != ci2.mutexes:
+            raise Shape("%s: the %s build has different data members" % (ci.name, HOOK_GUARD))
+        base = {}
+        for md in t1:
+            base.setdefault((md["name"], md["min"], md["max"]), []).append(significant(ci, md))
+        for md in t2:
+            key = (md["name"], md["min"], md["max"])
+            sig = significant(ci2, md)
+            if key in base and base[key]:
+                if sig not in base[key]:
+                    raise Shape("%s::%s: the %s build differs in locks / shared-field accesses" % (ci.name, md["name"], HOOK_GUARD))
+            elif any(it[0] != "ICall" for it in sig):
+                raise Shape("%s::%s exists only in the %s build and touches locks or shared fields" % (ci.name, md["name"], HOOK_GUARD))
+
+
 def translate(repo):
-    infos = [load_class(repo, c, rel) for c, rel in CLASSES]
+    infos, tables = with_hooks(repo, False)
+    check_hooks(repo, infos, tables)
     mutex_ids, field_ids = {}, {}
     mlines, flines, melines = [], [], []
     for ci in infos:
@@ -1064,8 +1111,8 @@ def translate(repo):
         if need not in mutex_ids:
             raise Shape("expected mutex not found: %s::%s" % need)
     nmeth = 0
-    for ci in infos:
-        for md in analyse_class(ci):
+    for ci, table in zip(infos, tables):
+        for md in table:
             its = []
             for it in md["items"]:
                 if it[0] == "IAcq":
